@@ -26,7 +26,8 @@ DataLen(k) == CASE k = "sprout" -> 64 [] k = "sapling" -> 43 [] k \in {"p2pkh", 
 
 \* ------------------------------------------------------------------ abstract strings
 WS == {"none", "lead", "trail", "both", "inner"}
-Families == {"ua", "sapling", "tex", "ufvk", "uivk"}
+\* "uaLonger": the unified-address HRP of that network followed by further characters (a near miss)
+Families == {"ua", "sapling", "tex", "ufvk", "uivk", "uaLonger"}
 OtherHrp == [fam |-> "other", net |-> "main"]
 Hrps == {[fam |-> f, net |-> n] : f \in Families, n \in Nets} \cup {OtherHrp}
 Variants == {"bech32", "bech32m", "bad"}
